@@ -5,6 +5,7 @@ import (
 	"context"
 	"errors"
 	"fmt"
+	"strconv"
 	"strings"
 
 	"github.com/jeroenrinzema/psql-wire/codes"
@@ -48,6 +49,9 @@ func c17Check(res *explore.Result, raw []byte, want map[byte]string) {
 	if err != nil {
 		res.Fail("error-response-grammar", fmt.Sprintf("%v; raw % x", err, raw))
 		return
+	}
+	for len(ms) > 0 && (ms[0].Type == 'C' || ms[0].Type == 'T' || ms[0].Type == 'D') {
+		ms = ms[1:] // (results of statements that preceded the failing one inside the same query)
 	}
 	if len(ms) == 0 || ms[0].Type != 'E' {
 		res.Fail("error-response-missing", "expected an ErrorResponse first, got "+pgproto.Kinds(ms))
@@ -219,10 +223,22 @@ func c17Enumerate(tier string, emit explore.Emit) {
 				} else {
 					res.Key = "s" + fmt.Sprint(shape)
 				}
+				failing := wire.NewStatement(func(ctx context.Context, w wire.DataWriter, p []wire.Parameter) error {
+					return buildErr(ds, "boom", shape)
+				})
+				fine := func() *wire.PreparedStatement {
+					return wire.NewStatement(func(ctx context.Context, w wire.DataWriter, p []wire.Parameter) error { return w.Complete("OK") })
+				}
 				parse := func(ctx context.Context, q string) (wire.PreparedStatements, error) {
-					return wire.Prepared(wire.NewStatement(func(ctx context.Context, w wire.DataWriter, p []wire.Parameter) error {
-						return buildErr(ds, "boom", shape)
-					})), nil
+					switch q {
+					case "second of two fails":
+						return wire.Prepared(fine(), failing), nil
+					case "first of three fails":
+						return wire.Prepared(failing, fine(), fine()), nil
+					case "parser fails":
+						return nil, buildErr(ds, "boom", shape)
+					}
+					return wire.Prepared(failing), nil
 				}
 				one, err := harness.StartOne(parse)
 				if err != nil {
@@ -230,9 +246,30 @@ func c17Enumerate(tier string, emit explore.Emit) {
 					return res
 				}
 				one.Step(pgproto.Startup("user", "u"))
-				out, _ := one.Step(pgproto.Query("x"))
+				// the error is reported the same way wherever it arises: a lone statement, a statement inside a
+				// multi-statement query, the parser, the extended protocol
+				for _, q := range []string{"x", "second of two fails", "first of three fails", "parser fails"} {
+					out, _ := one.Step(pgproto.Query(q))
+					before := len(res.Violations)
+					c17Check(&res, out, expectFields(ds, "boom", shape))
+					for i := before; i < len(res.Violations); i++ {
+						res.Violations[i].Detail = "simple query " + strconv.Quote(q) + ": " + res.Violations[i].Detail
+					}
+				}
+				out, _ := one.Step(pgproto.Cat(pgproto.Parse("", "x"), pgproto.Bind("", "", nil, nil, nil), pgproto.Execute("", 0), pgproto.Sync()))
+				if ms, err := pgproto.ParseBackend(out); err == nil && len(ms) > 2 {
+					before := len(res.Violations)
+					var raw bytes.Buffer
+					wireErr := ms[2]
+					raw.WriteByte('E')
+					raw.Write(pgproto.Be32(uint32(len(wireErr.Body) + 4)))
+					raw.Write(wireErr.Body)
+					c17Check(&res, raw.Bytes(), expectFields(ds, "boom", shape))
+					for i := before; i < len(res.Violations); i++ {
+						res.Violations[i].Detail = "extended protocol Execute: " + res.Violations[i].Detail
+					}
+				}
 				one.Stop()
-				c17Check(&res, out, expectFields(ds, "boom", shape))
 				return res
 			}})
 	})
